@@ -12,9 +12,9 @@ import json, os
 import vcommon as V
 
 META = dict(
-    text="Lean 4 theorems (Props/C06.lean): the operator table regenerated from InitInfixOps induces exactly the documented order, partition and associativity of levels (decide over the whole table, numbers not compared); lex_spacing: for EVERY token sequence (names, dotted paths, decimal and float numerals, the operators written with operator characters, brackets, comma, semicolon) and EVERY legal spacing of it (Spec/Spacing.lean: blanks are needed only between two words, between characters that would spell another operator or open a comment, before a signed numeral that follows a word or closing bracket, and after a binary minus that follows a blank and precedes a digit) the lexer model reads exactly that token sequence, one token of the expected type each, by induction over the token list; the four exclusions are shown necessary by counterexample theorems (`a -1` reads as `a`, `-1`: the sign look-back); infix_text_tokens: the text of a block in any legal spacing, nested [ ], ( ), { } to any depth, goes through the lexer and parser models to a token array that depends on the source tree alone, so the expander sees the same input whatever the spacing; statements of a block are expanded in order; the Pratt loop equals the stratified grammar on all short token lists (bounded, kernel-checked). A unit test can only sample operator pairs and spacings; the theorems cover all sequences and all legal spacings, and the exhaustive correspondence ties the models to the code.",
-    note="Trusted: Lean kernel; axioms propext/Classical.choice/Quot.sound; the extractor zyx (syntactic, cross-checked against the live env.infixOps each run); Model/Pratt.lean, Model/Lexer.lean, Model/Parser.lean, Model/InfixFront.lean are hand-written and tied to zygo/pratt.go, lexer.go, parser.go, comment.go by correspondence (differential testing: `lex`/`parse` channels of C13/C12 rune by rune, and here `expand`: exhaustive operator pairs/triples with spacing variants, every none/blank combination of the gaps of every operator pair through the lexer alone and end to end, random gap kinds, structured blocks, arbitrary token lists, the excluded adjacencies). PrattEqStratified (Pratt loop = stratified grammar for token lists of unbounded length) is stated and NOT proved: bounded theorem + correspondence stand in; text_means_stratified_partial composes the proved front end with it. Outside lex_spacing: labels and slices written with a colon, string/char literals inside blocks, comments in gaps, unsigned exponents (1e5) as specification tokens (the lexer-level theorem LegalFrom covers the last two kinds as words). if/else, for lowering, ++/-- followed by a tighter operator are outside the Pratt theorem (correspondence only).",
-    technique="Lean 4 proof (lexer model reads every legal spacing as the token sequence, induction over the token list; parser model on the token queue, induction over the source tree; table facts by decide; Pratt loop = stratified grammar bounded) + model/implementation correspondence through the real lexer, parser and expander",
+    text="Lean 4 theorems (Props/C06.lean). (1) table_is_documented: the operator table regenerated from InitInfixOps induces exactly the documented order, partition and associativity of levels (decide over the whole table, numbers not compared). (2) pratt_iff_stratified / expand_iff_statements: for EVERY token list of the fragment (any length, selectors nested to any depth, malformed lists included) the Pratt loop of pratt.go (model, regenerated table) returns a tree and rest iff the textbook stratified recursive-descent parser over the documented levels returns them, and InfixExpandArray returns a statement list iff it is the list of stratified statements (fuel-free form: 'returns with enough fuel'; induction on the token list, the loop cut at each level's binding power, stop property of Expression; the table/grammar link corr_generated is re-established by decide on every run with the binding powers read off the table). (3) lex_spacing: for EVERY token sequence (names, dotted paths, decimal and float numerals, the operators written with operator characters, brackets, comma, semicolon) and EVERY legal spacing of it (Spec/Spacing.lean: a blank is needed only between two words, between characters that would spell another operator or open a comment, before a signed numeral that follows a word or closing bracket, and after a binary minus that follows a blank and precedes a digit) the lexer model reads exactly that token sequence; the four exclusions are shown necessary by counterexample theorems (`a -1` reads as `a`, `-1`: the sign look-back, known finding). (4) infix_text_tokens / text_means_stratified: the text of a block in any legal spacing, nested [ ], ( ), { } to any depth, goes through the lexer and parser models to a token array that depends on the source tree alone, and its expansion is the stratified statement list. A unit test can only sample operator pairs and spacings; the theorems cover all sequences and all legal spacings, and the exhaustive correspondence ties the models to the code.",
+    note="Trusted: Lean kernel; axioms propext/Classical.choice/Quot.sound; the extractor zyx (syntactic, cross-checked against the live env.infixOps each run); Model/Pratt.lean, Model/Lexer.lean, Model/Parser.lean, Model/InfixFront.lean are hand-written and tied to zygo/pratt.go, lexer.go, parser.go, comment.go by correspondence (differential testing: `lex`/`parse` channels of C13/C12 rune by rune, and here `expand`: exhaustive operator pairs/triples with spacing variants, every none/blank combination of the gaps of every operator pair through the lexer alone and end to end, random gap kinds, structured blocks, arbitrary token lists, the excluded adjacencies). Not proved: that the fuel the executable models use (fuelFor) always suffices — the unbounded theorems are about 'returns with enough fuel', expandBlock_eq_parseBlock says the two executable functions agree whenever both return, pratt_eq_stratified_partial (bounded, kernel-checked) and the correspondence check the fuel; PrattEqStratified for EVERY well-formed table (only the regenerated one is covered). Outside the fragment of the Pratt theorem (specification silent, model = implementation by correspondence only): if/else, for lowering, break/continue, ++/-- or a prefix-only operator directly followed by a tighter operator, the undotted symbol `.`. Outside lex_spacing: labels and slices written with a colon, string/char literals inside blocks (the lexer-level theorem LegalFrom has them), comments in gaps.",
+    technique="Lean 4 proof (Pratt loop = stratified grammar by induction on the token list under a table/grammar correspondence discharged by decide; lexer model reads every legal spacing as the token sequence, induction over the token list; parser model on the token queue, induction over the source tree; table facts by decide) + model/implementation correspondence through the real lexer, parser and expander",
     design_ref="DESIGN.md §7 C06",
 )
 
@@ -43,10 +43,10 @@ def run(rep):
     rep.assumptions += [
         "Model/Pratt.lean is hand-written; tied to zygo/pratt.go (+ the lexer and parser in front of it) by the `expand` correspondence only",
         "Model/Lexer.lean and Model/Parser.lean (C13/C12) are hand-written; lex_spacing and infix_text_tokens are theorems about them; they are tied to lexer.go/parser.go by the `lex`/`parse` channels and here by `expand ltoks`/`ltree` (impl vs model on every spacing generated, legal or not; impl vs spec on the legal ones)",
-        "PrattEqStratified for token lists of unbounded length is not proved (bounded theorem pratt_eq_stratified_partial + exhaustive correspondence)",
+        "the unbounded Pratt theorems are fuel-free ('returns … with enough fuel'); that fuelFor suffices is checked by the bounded theorem and the correspondence, not proved",
         "labels and slice bounds written with a colon, string/char literals and comments inside blocks are outside Spec/Spacing (covered by the `tree`/`ltree` correspondence only)",
         "extract/ex_infixtable.go reads InitInfixOps and LeftBindingPower syntactically; its table is compared with the live env.infixOps on every run (op `expand ops`)",
-        "if/else, go-style for, break/continue, and ++/-- or a prefix-only operator directly followed by a tighter operator are outside pratt_eq_stratified (model = implementation by correspondence only)",
+        "if/else, go-style for, break/continue, and ++/-- or a prefix-only operator directly followed by a tighter operator are outside pratt_iff_stratified (the specification is silent; model = implementation by correspondence only)",
         "value phase: the prefix form is evaluated by the same interpreter (C02 is a separate property)",
     ]
     if not (prep["ok_drv"] and prep["ok_harness"]):
